@@ -208,6 +208,7 @@ fn tag_level(ctx: &mut Ctx, arena: &Arena, kind: u32, img: &[u8], memory_model: 
                 Out::Val(Ok(g)) => {
                     let recs = {
                         let mut b = Bat::new(ctx, p);
+                    b.resume = true;
                         b.derived = !UNIFORM.load(std::sync::atomic::Ordering::Relaxed);
                         battery::tag_level(&mut b, kind, g, o);
                         b.recs
@@ -251,6 +252,7 @@ fn region_level(ctx: &mut Ctx, arena: &Arena, region: &[u8], elf_names: bool, me
                 let order: Vec<usize> = if pass == 0 { (0..26).collect() } else { (0..26).rev().collect() };
                 for slot in order {
                     let mut b = Bat::new(ctx, p);
+                    b.resume = true;
                     b.derived = !UNIFORM.load(std::sync::atomic::Ordering::Relaxed);
                     match slot {
                         0..=21 => {
@@ -436,7 +438,7 @@ fn run(ctx: &mut Ctx) {
     let budget = if quick { 1 } else { 2 };
     let all = bases(strtab_base);
     // ---------------- tag level
-    ctx.bound("tag_level", format!("22 kinds + custom, 1-3 well-formed variants each; deviation budget {}: tag size 0..=extent+17 + EDGE32, mmap entry_size / EFI desc_size / ELF entsize 0..=129 + EDGE32 + {{24, 40, 48, 64}} + k * 2^30 (the product with 2 or 4 entries wraps around 2^32), EFI desc_version, palette count 0..=cap+3 + {{0xFF, 0x100, 0x101, 0x5555, 0x5556 (3 x count crosses 2^16), 0x7FFF, 0x8000, 0xAAAA, 0xAAAB (3 x count crosses 2^17), 0xFFFE, 0xFFFF}}, framebuffer type byte and VBE memory model all 256 values, RSDPv2 length 0..=60 + EDGE32, ELF num / shndx 0..=5 + EDGE32, raw ELF types; slice = the tag's padded extent, flush-right and flush-left against PROT_NONE guard pages, fills A/B; program = cast + every accessor + Debug, each under catch_unwind", budget));
+    ctx.bound("tag_level", format!("22 kinds + custom, 1-3 well-formed variants each; deviation budget {}: tag size 0..=extent+17 + EDGE32, mmap entry_size / EFI desc_size / ELF entsize 0..=129 + EDGE32 + {{24, 40, 48, 64}} + k * 2^30 (the product with 2 or 4 entries wraps around 2^32), EFI desc_version, palette count 0..=cap+3 + {{0xFF, 0x100, 0x101, 0x5555, 0x5556 (3 x count crosses 2^16), 0x7FFF, 0x8000, 0xAAAA, 0xAAAB (3 x count crosses 2^17), 0xFFFE, 0xFFFF}}, framebuffer type byte and VBE memory model all 256 values, RSDPv2 length 0..=60 + EDGE32, ELF num / shndx 0..=5 + EDGE32, raw ELF types; slice = the tag's padded extent, flush-right and flush-left against PROT_NONE guard pages, fills A/B; program = cast + every accessor + Debug, each under catch_unwind; EFI-descriptor and ELF-section iterators (and a clone, and their Debug output) are polled on after a caught panic", budget));
     for base in &all {
         enumerate(budget, |ch| {
             let (img, _size, devs) = apply(base, ch);
